@@ -120,6 +120,78 @@ class Model:
             self._index_module(mod)
         for c in self.classes.values():
             c.bases = [self.resolve(c.mod, b) or ast.unparse(b) for b in c.node.bases]
+        self._register_reexports()
+        if os.environ.get('SA_NO_NORMALIZE') != '1':
+            self._canonical_kernel_params()
+
+    def _register_reexports(self):
+        """a function / class that was moved into another module of the package and is imported back (`from ._shapes import unbroadcast`) stays reachable under its
+        old qualified name: anchors of the rules name functions by the module that exposes them"""
+        self.reexported = {}
+        self._alias_names = set()
+        for _ in range(2):      # chains of two re-exports
+            for mod in self.modules.values():
+                for alias, target in list(mod.aliases.items()):
+                    q = mod.modname + '.' + alias
+                    if target in self.funcs and q not in self.funcs and self.funcs[target].parent is None:
+                        self.funcs[q] = self.funcs[target]
+                        self._alias_names.add(q)
+                        self.reexported.setdefault(mod.modname, []).append((alias, target))
+                    if target in self.classes and q not in self.classes:
+                        self.classes[q] = self.classes[target]
+                        self._alias_names.add(q)
+
+    # ---------------------------------------------------------------- kernel parameter roles
+    def _canonical_kernel_params(self):
+        """The rule tables name the parameters of the internal NumPy kernels (cpu_ops / conv_tools) by the names recorded in sa/param_roles.json.  A kernel whose
+        positional parameters were renamed (same arity, same order) gets them renamed back - in its body and at every call site that passes them by keyword -
+        so that a pure renaming is invisible to the rules.  A kernel whose arity changed is left alone (the rules then see what is there)."""
+        import json
+        path = os.path.join(os.path.dirname(os.path.abspath(__file__)), 'param_roles.json')
+        try:
+            roles = json.load(open(path))
+        except (OSError, ValueError):
+            return
+        from .normalize import _Rename
+        renamed = {}
+        for q, spec in roles.items():
+            f = self.funcs.get(q)
+            if f is None or f.parent is not None:
+                continue
+            a = f.node.args
+            cur = [x.arg for x in a.posonlyargs + a.args]
+            want = spec['pos']
+            if cur == want or len(cur) != len(want) or (a.vararg is not None) != (spec['vararg'] is not None) or len(a.kwonlyargs) != len(spec['kwonly']):
+                continue
+            mapping = {c: w for c, w in zip(cur, want) if c != w}
+            # locals of the body that already use a canonical name step aside first
+            body_names = {n.id for st in f.node.body for n in ast.walk(st) if isinstance(n, ast.Name)}
+            nested_args = {n.arg for st in f.node.body for n in ast.walk(st) if isinstance(n, ast.arg)}
+            clash = (set(mapping.values()) & (body_names | nested_args)) - set(cur)
+            step = {c: c + '__loc' for c in clash}
+            if any(v in body_names for v in step.values()):
+                continue
+            tmp = {c: '__kp%d' % i for i, c in enumerate(mapping)}
+            for mp in ([step] if step else []) + [tmp, {tmp[c]: w for c, w in mapping.items()}]:
+                rn = _Rename(dict(mp))
+                f.node.body = [rn.visit(st) for st in f.node.body]
+                f.node.args.defaults = [rn.visit(d) for d in f.node.args.defaults]
+                for x in a.posonlyargs + a.args:
+                    if x.arg in mp:
+                        x.arg = mp[x.arg]
+            ast.fix_missing_locations(f.node)
+            renamed[q] = mapping
+        if not renamed:
+            return
+        for mod in self.modules.values():
+            for n in ast.walk(mod.tree):
+                if isinstance(n, ast.Call) and n.keywords:
+                    q = self.resolve(mod, n.func)
+                    if q in renamed:
+                        for k in n.keywords:
+                            if k.arg in renamed[q]:
+                                k.arg = renamed[q][k.arg]
+        self.renamed_kernel_params = renamed
 
     def _index_module(self, mod):
         pkgparts = mod.modname.split('.') if mod.is_pkg else mod.modname.split('.')[:-1]
@@ -230,12 +302,20 @@ class Model:
         """module-level functions; a private helper that was inlined at every use (its body now lives in its callers) is skipped unless dead=True"""
         m = self.mod(modname)
         fs = [self.funcs[modname + '.' + n.name] for n in m.tree.body if isinstance(n, ast.FunctionDef)]
+        # functions that live in a private sibling module and are imported back belong to this module's interface as before
+        for alias, target in getattr(self, 'reexported', {}).get(modname, []):
+            tm = target.rsplit('.', 1)[0]
+            if tm.rsplit('.', 1)[-1].startswith('_') and self.funcs[target] not in fs:
+                fs.append(self.funcs[target])
         return fs if dead else [f for f in fs if not f.inlined_everywhere]
 
     def live_funcs(self):
         """every function / method / closure except private helpers that were inlined at every use (and the closures nested in them)"""
-        out = []
+        out, seen = [], set()
         for f in self.funcs.values():
+            if id(f) in seen:
+                continue        # the same function registered under a re-exported name
+            seen.add(id(f))
             g, deadf = f, False
             while g is not None:
                 if g.inlined_everywhere:
@@ -246,7 +326,12 @@ class Model:
         return out
 
     def nested(self, func):
-        return [f for f in self.funcs.values() if f.parent is func]
+        out, seen = [], set()
+        for f in self.funcs.values():
+            if f.parent is func and id(f) not in seen:
+                seen.add(id(f))
+                out.append(f)
+        return out
 
     def mro(self, cls):
         """linearised bases inside the package (single inheritance chains are all the repo uses)"""
@@ -277,7 +362,7 @@ class Model:
         """follow package re-exports: 'synapgrad.no_grad' -> 'synapgrad.tensor.no_grad'"""
         if dotted is None or depth > 8:
             return dotted
-        if dotted in self.funcs or dotted in self.classes:
+        if (dotted in self.funcs or dotted in self.classes) and dotted not in getattr(self, '_alias_names', ()):
             return dotted
         parts = dotted.split('.')
         if dotted in self.modules:
